@@ -159,6 +159,34 @@ RefRead(D) ==
 Truth(G) == [tsmap |-> G.tsmap, css |-> G.css, regions |-> G.regions, cues |-> G.cues, err |-> FALSE]
 
 ---------------------------------------------------------------------------
+(* Implementation layer: the control state of webvtt.go:ReadFromWebVTT, one step per physical line after the
+   header (= per scanner.Scan() of the main loop): the block the reader believes it is in, the depth of the tag
+   stack it carries from line to line, the comments waiting for the next cue, the cues appended so far.
+   LoopObs is what the hook at the top of the loop reports before the line is looked at. *)
+LoopInit == [n |-> 1, items |-> 0, block |-> "", tags |-> 0, comments |-> 0, styled |-> FALSE]
+
+RECURSIVE DepthAfter(_, _)
+DepthAfter(its, d) ==
+  IF its = <<>> THEN d
+  ELSE DepthAfter(Tail(its), IF Head(its).t = "o" THEN d + 1 ELSE IF Head(its).t = "c" THEN (IF d > 0 THEN d - 1 ELSE 0) ELSE d)
+
+LoopLine(st, tok) ==
+  LET st1 == [st EXCEPT !.n = @ + 1] IN
+  CASE tok.k = "blank"  -> [st1 EXCEPT !.block = "", !.tags = 0]          \* every CSS line of the model ends its rule
+    [] tok.k = "note"   -> [st1 EXCEPT !.block = "comment", !.comments = @ + 1]
+    [] tok.k = "cont"   -> IF st.block = "comment" THEN [st1 EXCEPT !.comments = @ + 1] ELSE st1
+    [] tok.k = "style"  -> [st1 EXCEPT !.block = "style", !.tags = IF st.styled THEN @ ELSE 0, !.styled = TRUE]
+    [] tok.k = "timing" -> [st1 EXCEPT !.block = "text", !.items = @ + 1, !.comments = 0]
+    [] tok.k = "text"   -> IF st.block = "text" THEN [st1 EXCEPT !.tags = DepthAfter(tok.its, st.tags)] ELSE st1
+    [] OTHER -> st1                                                       \* tsmap, css, region, id: no control state
+
+LoopObsOf(st) == [n |-> st.n + 1, items |-> st.items, block |-> st.block, tags |-> st.tags, comments |-> st.comments]
+RECURSIVE LoopObs(_, _)
+LoopObs(st, toks) == IF toks = <<>> THEN <<>> ELSE <<LoopObsOf(st)>> \o LoopObs(LoopLine(st, Head(toks)), Tail(toks))
+\* the first token is the header line, consumed by the header loop
+ImplHooks(D) == IF D.toks = <<>> THEN <<>> ELSE LoopObs(LoopInit, Tail(D.toks))
+
+---------------------------------------------------------------------------
 (* Writer contract: the written document denotes the list with cues numbered 1..n *)
 Renumber(G) == [G EXCEPT !.cues = [i \in DOMAIN G.cues |-> [G.cues[i] EXCEPT !.id = i]]]
 WriteOK(G, D) == RefRead(D) = Truth(Renumber(G))
